@@ -100,7 +100,7 @@ def main():
             H = A_.assume(pre + p['pc'])
             d = A_.ab(new - lh)
             t12 = z3.Q(1, 10 ** 12)
-            P.oblige('vincinv.lambda_exit', 'geodesy.vincinv', tag, E.prove(z3.And(d < t12, d > -t12), H + A_.side, use_axioms=False), strict=True)
+            P.oblige('vincinv.lambda_exit', 'geodesy.vincinv', tag, E.prove(z3.And(d < t12, d > -t12), H + A_.side, use_axioms=False, timeout=15000), strict=True)
         P.oblige('vincinv.distance', 'geodesy.vincinv', tag, E.prove_eq(d_c, r3(s_sp), hy), code=d_c, spec=r3(s_sp), hyps=hy,
                  note='s = b A (sigma - delta_sigma) with A, B from the a, b of the ellipsoid argument')
         sp12 = r9(az1d + 360) if neg else r9(az1d)
